@@ -306,3 +306,69 @@ def const_value(e):
         except (ZeroDivisionError, OverflowError):
             return None
     return None
+
+
+# ---------------------------------------------------------------------------------------------------------------------
+class _MatchDesugar(ast.NodeTransformer):
+    """`match` statements whose patterns are class patterns without sub-patterns, or-patterns, literals, None and the
+    wildcard (optionally `as name`) are the same as an if / elif chain of isinstance / == / `is` tests; they are rewritten
+    once, right after parsing, so that every engine sees statement kinds it already knows.  Other patterns (sequences,
+    mappings, class patterns with sub-patterns) are left alone and stay `undecided` wherever they matter."""
+
+    def __init__(self):
+        self.n = 0
+
+    def _test(self, pat_, subj, binds):
+        if isinstance(pat_, ast.MatchClass) and not pat_.patterns and not pat_.kwd_patterns:
+            return ast.Call(func=ast.Name(id="isinstance", ctx=ast.Load()), args=[subj(), pat_.cls], keywords=[])
+        if isinstance(pat_, ast.MatchOr):
+            parts = [self._test(p, subj, binds) for p in pat_.patterns]
+            return None if any(p is None for p in parts) else ast.BoolOp(op=ast.Or(), values=parts)
+        if isinstance(pat_, ast.MatchSingleton):
+            return ast.Compare(left=subj(), ops=[ast.Is()], comparators=[ast.Constant(value=pat_.value)])
+        if isinstance(pat_, ast.MatchValue):
+            return ast.Compare(left=subj(), ops=[ast.Eq()], comparators=[pat_.value])
+        if isinstance(pat_, ast.MatchAs):
+            t = ast.Constant(value=True) if pat_.pattern is None else self._test(pat_.pattern, subj, binds)
+            if t is not None and pat_.name is not None:
+                binds.append(pat_.name)
+            return t
+        return None
+
+    def visit_Match(self, node):
+        self.generic_visit(node)
+        pre = []
+        if isinstance(node.subject, ast.Name):
+            name = node.subject.id
+        else:
+            self.n += 1
+            name = f"_match_subject_{self.n}"
+            pre.append(ast.Assign(targets=[ast.Name(id=name, ctx=ast.Store())], value=node.subject))
+
+        def subj():
+            return ast.Name(id=name, ctx=ast.Load())
+        chain = []
+        for case in node.cases:
+            binds = []
+            t = self._test(case.pattern, subj, binds)
+            if t is None or (case.guard is not None and binds):
+                return node
+            if case.guard is not None:
+                t = ast.BoolOp(op=ast.And(), values=[t, case.guard])
+            body = [ast.Assign(targets=[ast.Name(id=b, ctx=ast.Store())], value=subj()) for b in binds] + list(case.body)
+            chain.append((t, body))
+        top = None
+        for t, body in reversed(chain):
+            if isinstance(t, ast.Constant) and t.value is True and top is None:
+                top = body                          # trailing wildcard = else branch
+                continue
+            top = [ast.If(test=t, body=body, orelse=top if isinstance(top, list) else [])]
+        out = pre + (top or [])
+        for st in out:
+            ast.copy_location(st, node)
+            ast.fix_missing_locations(st)
+        return out
+
+
+def desugar_match(tree):
+    return ast.fix_missing_locations(_MatchDesugar().visit(tree))
